@@ -366,10 +366,12 @@ func fillTable() error {
 // ---- worlds
 
 // mergeable: the program can live on the shared engine (its page under <name>.vuego at the
-// root of one filesystem): no front-matter/layout/config files, no engine options, and every
+// root of one filesystem): no layout/config files, no engine options, and every
 // other file either new or identical to what is already there.
 func mergeInto(files map[string]string, p cat.Program) bool {
-	if p.FileOnly || len(p.Opts) > 0 || usesLayout(p) {
+	// (front-matter pages without a layout live on the shared engine too: what their Load leaves
+	// behind on the long-lived renderer is seen by the pages loaded after them)
+	if len(p.Opts) > 0 || usesLayout(p) {
 		return false
 	}
 	for f, src := range p.Files {
@@ -1376,6 +1378,29 @@ func TestProp(t *testing.T) {
 	pairHistories("pairs-shared", scs, true, func(ai, chunk int) bool { return run.Thorough() || (ai+chunk)%3 == 0 })
 	// near-twin programs on the shared engine, exhaustively in both tiers: every ordered pair of
 	// twins x every pair of entries as A, B, A (the first render on the engine is A's)
+	// pages with front-matter and pages that READ the same key names, on one long-lived renderer:
+	// F (Load + Fill / RenderFile / Load + Assign), then R loaded WITHOUT Fill (Assign of its own
+	// keys only, or no data at all), then F again; and the other way round
+	var fmPages, readers []combo
+	for _, cb := range scs {
+		tpl := cb.entry == "load" || cb.entry == "file" || cb.entry == eAssign
+		if tpl && hasFeat(cb.p, "front-matter") && strings.HasPrefix(cb.p.Files["page.vuego"], "---\n") {
+			fmPages = append(fmPages, cb)
+		}
+		if cb.entry == eAssign && hasFeat(cb.p, "leak-probe") {
+			readers = append(readers, cb)
+		}
+	}
+	for _, f := range fmPages {
+		for _, r := range readers {
+			for _, rv := range []int{0, vNil} {
+				sf := Step{Prog: f.p.Name, Entry: f.entry}
+				sr := Step{Prog: r.p.Name, Entry: r.entry, Var: rv}
+				each("fm-shared", Case{Shared: true, Steps: []Step{sf, sr, sf, sr}})
+				each("fm-shared", Case{Shared: true, Steps: []Step{sr, sf, sr}})
+			}
+		}
+	}
 	for _, family := range []string{"near-twin", "retype-twin", "row-twin"} {
 		var twins []combo
 		for _, cb := range scs {
